@@ -9,6 +9,7 @@ mod rdl;
 mod samples;
 mod c04;
 mod c05;
+mod c06;
 
 use common::Tier;
 
@@ -28,6 +29,7 @@ fn main() {
         "C01" => c01::run(tier),
         "C04" => c04::run(tier),
         "C05" => c05::run(tier),
+        "C06" => c06::run(tier),
         "bind" => { let r = samples::bind_or_die(); println!("rsig ok {} rejected {} ; rdl validations {} exec-error {} skipped {:?}", r.rsig_accepted, r.rsig_rejected, r.rdl_validations, r.rdl_exec_error_validations, r.rdl_skipped); }
         other => {
             eprintln!("unknown property {other}");
